@@ -300,7 +300,8 @@ fn load_keys(name: &str) -> R<(ProvingKey<Bls12_377>, VerifyingKey<Bls12_377>)> 
     Ok((pk, vk))
 }
 
-/// the seven pinned circuits of tests/groth16_gadgets.rs, re-stated through the public API
+/// the seven pinned circuits of tests/groth16_gadgets.rs, statement for statement (the order of the operands of
+/// `enforce_equal` and the allocation forms matter: they fix the rows of the constraint matrices the keys were made for)
 fn pinned(name: &str, a: &Args) -> R<(Box<dyn FnOnce(ConstraintSystemRef<Fq>) -> Result<(), SynthesisError>>, Vec<Fq>)> {
     match name {
         "compression" => {
@@ -317,7 +318,7 @@ fn pinned(name: &str, a: &Args) -> R<(Box<dyn FnOnce(ConstraintSystemRef<Fq>) ->
             let fe = e.vartime_compress_to_field();
             Ok((Box::new(move |cs| {
                 let w = FqVar::new_witness(cs.clone(), || Ok(fe))?;
-                let p = ElementVar::new_input(cs, || Ok(e))?;
+                let p: ElementVar = AllocVar::<Fq, Fq>::new_input(cs, || Ok(fe))?;
                 let t = ElementVar::decompress_from_field(w)?;
                 p.enforce_equal(&t)
             }), e.to_field_elements().unwrap()))
@@ -359,8 +360,31 @@ fn pinned(name: &str, a: &Args) -> R<(Box<dyn FnOnce(ConstraintSystemRef<Fq>) ->
                 let w = ElementVar::new_witness(cs.clone(), || Ok(e))?;
                 let p = ElementVar::new_input(cs, || Ok(n))?;
                 let t = w.negate()?;
-                p.enforce_equal(&t)
+                t.enforce_equal(&p)
             }), n.to_field_elements().unwrap()))
+        }
+        "add_assign_add" => {
+            let ea = a.elem("a")?;
+            let eb = a.elem("b")?;
+            let (c, d) = (ea + eb, ea - eb);
+            let mut public = c.to_field_elements().unwrap();
+            public.extend_from_slice(&d.to_field_elements().unwrap());
+            Ok((Box::new(move |cs| {
+                let a = ElementVar::new_witness(cs.clone(), || Ok(ea))?;
+                let b = ElementVar::new_witness(cs.clone(), || Ok(eb))?;
+                let c_pub = ElementVar::new_input(cs.clone(), || Ok(c))?;
+                let c_add = a.clone() + b.clone();
+                let mut c_add_assign = a.clone();
+                c_add_assign += b.clone();
+                c_add.enforce_equal(&c_pub)?;
+                c_add_assign.enforce_equal(&c_pub)?;
+                let d_pub = ElementVar::new_input(cs, || Ok(d))?;
+                let d_sub = a.clone() - b.clone();
+                let mut d_sub_assign = a.clone();
+                d_sub_assign -= b;
+                d_sub.enforce_equal(&d_pub)?;
+                d_sub_assign.enforce_equal(&d_pub)
+            }), public))
         }
         _ => Err("unsupported".into()),
     }
